@@ -135,6 +135,11 @@ def run_verus_unit(unit, workdir, tier, seed, want_canaries=True):
         return None
 
     runs = []
+    pool = ThreadPoolExecutor(max_workers=2)
+    canary_future = None
+    if want_canaries and any(True for _ in unit.fns()):
+        prepared = prepare_canaries(unit, workdir)
+        canary_future = pool.submit(verus.run_verus, prepared[1], None, None, 50, 8)
     rl = 10 if tier == "quick" else 40
     seeds = [None] if tier == "quick" else [None, (seed * 7 + 1) % 100000, (seed * 13 + 5) % 100000]
     for sd in seeds:
@@ -182,8 +187,9 @@ def run_verus_unit(unit, workdir, tier, seed, want_canaries=True):
     ur.generated_text = g.text
     ur.fn_times = r0.fn_times
     # canaries
-    if want_canaries:
-        ur.canaries = run_canaries(unit, workdir, ur)
+    if canary_future is not None:
+        ur.canaries = finish_canaries(unit, workdir, ur, prepared, canary_future.result())
+    pool.shutdown(wait=False)
     ur.wall = time.time() - t0
     return ur
 
@@ -243,7 +249,7 @@ def canary_points(fn):
     return pts
 
 
-def run_canaries(unit, workdir, ur):
+def prepare_canaries(unit, workdir):
     """Vacuity guard: for every function under contract and every reachability
     point (entry, each contracted loop body) a copy with assert(false) there
     must be REJECTED at exactly that line."""
@@ -269,7 +275,11 @@ def run_canaries(unit, workdir, ur):
     path = os.path.join(workdir, unit.name + "_canary.rs")
     with open(path, "w") as f:
         f.write(g.text)
-    r = verus.run_verus(path, multiple_errors=50)
+    return (g, path, expect)
+
+
+def finish_canaries(unit, workdir, ur, prepared, r):
+    g, path, expect = prepared
     if r.json is None:
         raise Undecided("unit %s canaries: no verifier result: %s" % (unit.name, (r.raw_stderr or "")[-300:]))
     seen = set()
@@ -281,6 +291,12 @@ def run_canaries(unit, workdir, ur):
             org = g.origins[ln0] if ln0 < len(g.origins) else None
             if org and org.get("kind") == "hint" and str(org.get("ref", "")).startswith("canary:"):
                 seen.add(org["ref"])
+    # a canary is decisive only for functions whose real copy verified: after a reported failure
+    # Verus assumes the failed condition, which can make later points unreachable
+    failed_fns = set(f.fn for f in ur.failures if f.message != "postcondition not satisfied")
+    def fn_of(tag):
+        return tag.split(":")[1] if tag.count(":") >= 2 else None
+    expect = [t for t in expect if not any(fq and (t.split(":", 1)[1].startswith(fq + ":")) for fq in failed_fns)]
     missing = [t for t in expect if t not in seen]
     if missing:
         raise Undecided("VACUITY: unit %s: assert(false) was accepted at %s - contradictory precondition/invariant/assumption" % (unit.name, missing))
